@@ -393,6 +393,17 @@ func c09bRun(r *Run, l *Local, spec *CfgSpec, sem *Sem, mws [2]*cors.Middleware,
 	// ... but must not turn the failure into a grant (judged for browser-shaped preflights)
 	if origin, method, names, pna, ok := browserShaped(q); ok {
 		l.counters["failing_browser_shaped"]++
+		// debug mode is VISIBLE in every configuration kind (lesson of seeded change C09-h: a fast path that never sees the
+		// debug flag): a browser-shaped preflight from an allowed origin that fails (necessarily at the PNA, method or
+		// header step) is answered, in debug mode, with an ok status and Access-Control-Allow-Origin, and with neither
+		// when debug mode is off. mws[1] / mws[0] reached their debug mode along the histories of newMiddlewareViaDbg.
+		if sem.originAllowedRaw(origin) && hostWithinDNSLimits(origin) {
+			l.counters["failing_from_allowed_origin"]++
+			if !(on.ok2xx() && len(on.get(hACAO)) > 0) {
+				fail("debug-mode-not-visible", "debug mode is on (SetDebug(true) on a configured middleware, possibly retained across Reconfigure), but a preflight failing after the origin step is answered as if it were off")
+			}
+		}
+		_, _, _ = method, names, pna
 		for _, cred := range []bool{false, true} {
 			if preflightGrants(on, origin, method, names, cred, pna) && !preflightGrants(off, origin, method, names, cred, pna) {
 				fail("debug-grants-failing-preflight", fmt.Sprintf("with debug on a browser (credentials include=%v) passes a preflight that fails with debug off", cred))
@@ -404,7 +415,7 @@ func c09bRun(r *Run, l *Local, spec *CfgSpec, sem *Sem, mws [2]*cors.Middleware,
 func TestVerif_C09(t *testing.T) {
 	r := newRun(t, "C09")
 	r.Rule("(1) every history over {SetDebug(true), SetDebug(false), Reconfigure(nil), Reconfigure(A), Reconfigure(B), Reconfigure(invalid)} up to length N from NewMiddleware(A) and from the zero value, after every step the answers to a 14-request probe suite (incl. preflights failing at the method, header and PNA steps, which show debug mode and the configured header list) and Config()==nil compared with the golden answers of a fresh middleware in the state the documented state machine prescribes; PRNG histories of length 30. " +
-		"(2) debug-invariance: C02 configuration product x hostile and browser-shaped requests answered with debug off and on: non-preflights identical; succeeding preflights identical up to ACAH carrying the full configured list; failing preflights may only gain an ok status and a subset of ACAO/ACAC/ACAPN/ACAM/ACAH/ACMA and must still fail a browser's preflight check. " +
+		"(2) debug-invariance: C02 configuration product x hostile and browser-shaped requests answered with debug off and on: non-preflights identical; succeeding preflights identical up to ACAH carrying the full configured list; failing preflights may only gain an ok status and a subset of ACAO/ACAC/ACAPN/ACAM/ACAH/ACMA and must still fail a browser's preflight check; a browser-shaped preflight from an allowed origin that fails must, in debug mode, show the ok status and ACAO (debug mode visible in every configuration kind; the two middlewares reach their debug mode along 8 different histories, incl. debug switched on before the configuration in force was installed). " +
 		"evaluation = one observed step (1) or one request pair (2); non-trivial = distinct (history prefix) resp. preflight pair, distinct by construction / hash")
 	r.Assume("A and B have discrete method lists, distinct max-age and success status, so that (configuration, debug) is observable from outside")
 
@@ -586,4 +597,29 @@ func TestVerif_C09(t *testing.T) {
 	r.mu.Unlock()
 	_ = strconv.Itoa
 	r.Finish(5000)
+}
+
+// hostWithinDNSLimits: the host of a serialized origin is at most 253 bytes long with labels of 1..63 bytes
+// (matchRaw judges the shape of an Origin value, not these limits; beyond them a value is not an origin at all).
+func hostWithinDNSLimits(raw string) bool {
+	i := strings.Index(raw, "://")
+	if i < 0 {
+		return false
+	}
+	host := raw[i+3:]
+	if strings.HasPrefix(host, "[") {
+		return true
+	}
+	if j := strings.IndexByte(host, ':'); j >= 0 {
+		host = host[:j]
+	}
+	if len(host) == 0 || len(host) > 253 {
+		return false
+	}
+	for _, lab := range strings.Split(host, ".") {
+		if len(lab) == 0 || len(lab) > 63 {
+			return false
+		}
+	}
+	return true
 }
